@@ -2,42 +2,77 @@
    Generic theorems (proved once, for every class description and every semantics that respects it) and the per-class
    decisions re-computed by vm_compute on the description generated from the current source (gen/Desc.v, gen/Decide.v). *)
 From Coq Require Import String List.
-From C16 Require Import ObjModel SelfContained Refcount RaceFree Examples.
+From C16 Require Import ObjModel SelfContained Statics Refcount RaceFree Examples.
 From C16.gen Require Import Desc Decide.
+From C16 Require Import Decided.
 
-(* C16: for every history of construct / copy / assign / use / destroy / re-parameterise in place (Mutate) over any number of objects, the result of a use of a
-   method accepted by method_sc_b is  run n (init p) st' a : a function of the lineage's construction parameters p, the
-   operands a and the documented excluded globals only *)
-Theorem C16_self_contained : forall val param arg res d init dflt junk run eff_own eff_stat,
+(* C16: for every history of construct / copy / assign / use / destroy / re-parameterise in place (Mutate) over any number of objects — the
+   constructors may read and write the function-local statics / globals of the process —, the result of a use of a method accepted by
+   method_sc_b is  run n (init p c') st' a : a function of the lineage's construction parameters p, the operands a and the documented
+   excluded globals only.  Premises 1-3: "the code respects its description" (footprints of methods and constructors); premises 4-5 speak
+   about the description alone and are DECIDED on the generated one (C16_decided_mutators, C16_decided_init; instantiated for every
+   described class by C16_described_classes_self_contained).  The former premises "members outside cd_params do not depend on the
+   parameters" and "default-initialised members have their default value" are no longer assumed: init is defined from cd_init. *)
+Theorem C16_self_contained : forall val param arg res d pinit cinit dflt ctor_stat junk run eff_own eff_stat,
   (forall md, In md (cd_methods d) -> pure_b md = true -> forall s s' st st' a,
       (forall x, In x (m_reads md) -> s x = s' x) -> (forall g, In (RExcluded g) (m_effects md) -> st g = st' g) ->
       run (m_name md) s st a = run (m_name md) s' st' a) ->
   (forall md, In md (cd_methods d) -> m_const md = true -> forall s st a x,
       existsb (writes_member_b x) (m_effects md) = false -> eff_own (m_name md) s st a x = s x) ->
-  (forall p x mp, cd_copy d = Some mp -> lookup x mp = Some SrcDefault -> init p x = dflt x) ->
+  (ctor_pure_b d = true -> forall p st st' x,
+      (forall g, In (RExcluded g) (cd_ctor_effects d) -> st g = st' g) -> pinit p st x = pinit p st' x) ->
   (forall md, In md (cd_methods d) -> m_mutator md = true -> mutator_ok_b d md = true) ->
-  (forall p p' x, mem x (cd_params d) = false -> init p x = init p' x) ->
-  SelfContained_stmt val param arg res d init dflt junk run eff_own eff_stat.
+  init_consistent_b d = true ->
+  SelfContained_stmt val param arg res d pinit cinit dflt ctor_stat junk run eff_own eff_stat.
 Proof. exact self_contained. Qed.
 Print Assumptions C16_self_contained.
 
-Theorem C16_history_independent : forall val param arg res d init dflt junk run eff_own eff_stat,
+Theorem C16_history_independent : forall val param arg res d pinit cinit dflt ctor_stat junk run eff_own eff_stat,
   (forall md, In md (cd_methods d) -> pure_b md = true -> forall s s' st st' a,
       (forall x, In x (m_reads md) -> s x = s' x) -> (forall g, In (RExcluded g) (m_effects md) -> st g = st' g) ->
       run (m_name md) s st a = run (m_name md) s' st' a) ->
   (forall md, In md (cd_methods d) -> m_const md = true -> forall s st a x,
       existsb (writes_member_b x) (m_effects md) = false -> eff_own (m_name md) s st a x = s x) ->
-  (forall p x mp, cd_copy d = Some mp -> lookup x mp = Some SrcDefault -> init p x = dflt x) ->
+  (ctor_pure_b d = true -> forall p st st' x,
+      (forall g, In (RExcluded g) (cd_ctor_effects d) -> st g = st' g) -> pinit p st x = pinit p st' x) ->
   (forall md, In md (cd_methods d) -> m_mutator md = true -> mutator_ok_b d md = true) ->
-  (forall p p' x, mem x (cd_params d) = false -> init p x = init p' x) ->
-  HistoryIndependent_stmt val param arg res d init dflt junk run eff_own eff_stat.
+  init_consistent_b d = true ->
+  HistoryIndependent_stmt val param arg res d pinit cinit dflt ctor_stat junk run eff_own eff_stat.
 Proof. exact history_independent. Qed.
 Print Assumptions C16_history_independent.
 
-Theorem C16_frame : forall val param arg res d init dflt junk run eff_own eff_stat,
-  Frame_stmt val param arg res d init dflt junk run eff_own eff_stat.
+(* construction parameters determine every (stable) member: right after any construction, in any state of the process *)
+Theorem C16_construction_determined : forall val param arg res d pinit cinit dflt ctor_stat junk run eff_own eff_stat,
+  (ctor_pure_b d = true -> forall p st st' x,
+      (forall g, In (RExcluded g) (cd_ctor_effects d) -> st g = st' g) -> pinit p st x = pinit p st' x) ->
+  init_consistent_b d = true ->
+  ConstructionDetermined_stmt val param arg res d pinit cinit dflt ctor_stat junk run eff_own eff_stat.
+Proof. exact construction_determined. Qed.
+Print Assumptions C16_construction_determined.
+
+(* the generic theorem on the generated description: premises 4-5 discharged by the vm_compute decisions *)
+Theorem C16_described_classes_self_contained : DescribedClasses_stmt.  Proof. exact described_classes_self_contained. Qed.
+Print Assumptions C16_described_classes_self_contained.
+
+Theorem C16_frame : forall val param arg res d pinit cinit dflt ctor_stat junk run eff_own eff_stat,
+  Frame_stmt val param arg res d pinit cinit dflt ctor_stat junk run eff_own eff_stat.
 Proof. exact frame. Qed.
 Print Assumptions C16_frame.
+
+(* function-local statics: write-once (first writer wins) / constant initialiser is harmless / parameter initialiser is refuted *)
+Theorem C16_static_first_writer_wins : forall val ctx initv, FirstWriterWins_stmt val ctx initv.   Proof. exact first_writer_wins. Qed.
+Print Assumptions C16_static_first_writer_wins.
+Theorem C16_static_write_once_value : forall val ctx initv, WriteOnceValue_stmt val ctx initv.     Proof. exact write_once_value. Qed.
+Print Assumptions C16_static_write_once_value.
+Theorem C16_static_constant_init_history_independent : forall val ctx initv, ConstantInit_stmt val ctx initv.
+Proof. exact constant_init_history_independent. Qed.
+Print Assumptions C16_static_constant_init_history_independent.
+Theorem C16_static_parameter_init_refuted : ParameterInit_refuted_stmt.   Proof. exact parameter_init_refuted. Qed.
+Print Assumptions C16_static_parameter_init_refuted.
+Theorem C16_static_classes : StaticClass_stmt.                           Proof. exact static_class. Qed.
+Print Assumptions C16_static_classes.
+Theorem C16_static_ctor_refuted : StaticCtor_refuted_stmt.               Proof. exact static_ctor_refuted. Qed.
+Print Assumptions C16_static_ctor_refuted.
 
 Theorem C16_refcount_safe : forall copy_incs destroy_decs destroy_frees order,
   RefcountSafe_stmt copy_incs destroy_decs destroy_frees order.
@@ -77,6 +112,14 @@ Theorem C16_decided_mutators : Decide_mut_stmt.                        Proof. ex
 Print Assumptions C16_decided_mutators.
 Theorem C16_decided_refcount : Decide_rc_stmt.                         Proof. exact decide_rc. Qed.
 Print Assumptions C16_decided_refcount.
+Theorem C16_decided_constructors : Decide_ctor_stmt.                   Proof. exact decide_ctor. Qed.
+Print Assumptions C16_decided_constructors.
+Theorem C16_decided_init : Decide_init_stmt.                           Proof. exact decide_init. Qed.
+Print Assumptions C16_decided_init.
+Theorem C16_decided_premises : Decide_premises_stmt.                   Proof. exact decide_premises. Qed.
+Print Assumptions C16_decided_premises.
+Theorem C16_decided_nonempty : Decide_nonempty_stmt.                   Proof. exact decide_nonempty. Qed.
+Print Assumptions C16_decided_nonempty.
 Theorem C18_decided_race_free : Decide_rf_stmt.                        Proof. exact decide_rf. Qed.
 Print Assumptions C18_decided_race_free.
 Theorem C18_decided_copy_race_free : Decide_copy_rf_stmt.              Proof. exact decide_copy_rf. Qed.
